@@ -181,5 +181,36 @@ pub fn run(rng: &mut R, out: &mut Out) {
         let h = gen::header(rng);
         one_header(out, rng, &h);
     }
+    // every length / count prefix hashed into an id on both sides of each compact-size boundary: the ids are the
+    // hashes of the CONSENSUS serialization (the model writes minimal prefixes), not of whatever the encoder writes
+    for l in [0xfcusize, 0xfd, 0xfe, 0xffff, 0x10000] {
+        // (the model's SHA-256 runs at ~30 kB/s in the driver: the two large sizes are used once per kind of prefix)
+        out.count("boundary.compact_size");
+        let big = l > 0xfe;
+        let mut t = gen::tx_wide(rng, 1, 1);
+        t.input[0].script_sig = elements::Script::from(gen::bytes(rng, l));
+        one_tx(out, rng, &t);
+        if l == 0x10000 { continue; }
+        if !big {
+            let mut t = gen::tx_wide(rng, 1, 1);
+            t.output[0].script_pubkey = elements::Script::from(gen::bytes(rng, l));
+            one_tx(out, rng, &t);
+        }
+        let mut t = gen::tx_wide(rng, 1, 1);
+        t.input[0].witness.script_witness = vec![gen::bytes(rng, l)];
+        one_tx(out, rng, &t);
+        let mut h = gen::header(rng);
+        h.ext = BlockExtData::Proof { challenge: gen::bytes(rng, l).into(), solution: gen::bytes(rng, 3).into() };
+        one_header(out, rng, &h);
+        if !big {
+            let mut h = gen::header(rng);
+            h.ext = BlockExtData::Proof { challenge: gen::bytes(rng, 3).into(), solution: gen::bytes(rng, l).into() };
+            one_header(out, rng, &h);
+        }
+        let f = elements::dynafed::FullParams::new(gen::bytes(rng, 5).into(), 3, elements::bitcoin::ScriptBuf::from_bytes(gen::bytes(rng, 22)), gen::bytes(rng, if big { 7 } else { l }), (0..l).map(|i| vec![i as u8; (i % 3 == 0) as usize]).collect());
+        let mut h = gen::header(rng);
+        h.ext = BlockExtData::Dynafed { current: elements::dynafed::Params::Full(f), proposed: elements::dynafed::Params::Null, signblock_witness: vec![gen::bytes(rng, if big { 9 } else { l })] };
+        one_header(out, rng, &h);
+    }
     genesis::run(rng, out);
 }
